@@ -60,7 +60,10 @@ def mechanism_key(w):
   extra = ""
   if "direction" in d:
     extra = " " + d["direction"]
-  return f"{w['inv']} [{op or '-'}{extra}] py{v}"
+  inv = w["inv"]
+  if inv.startswith("I2 instruction in two blocks"):
+    inv = "I2 instruction in two blocks"      # of order / of the split: same mechanism
+  return f"{inv} [{op or '-'}{extra}] py{v}"
 
 
 # --------------------------------------------------------------------------
@@ -142,11 +145,14 @@ def nesting_modules(depth, lo, hi, per_module=40):
   """Groups the compilable nesting cases with index in [lo,hi) into module sources."""
   from vf.gen import hostile_programs as hp
   cur, labels, n_skip = [], [], 0
-  for idx, (label, name, src, (chain, leaf)) in enumerate(hp.nesting_cases(depth)):
+  for idx, (chain, leaf) in enumerate(hp.nesting_chains(depth)):
     if idx < lo:
       continue
     if idx >= hi:
       break
+    name = f"f{idx}"
+    label = hp.chain_label(chain, leaf)
+    src = hp.render_chain(chain, leaf, name)
     if not _native_ok(src):
       src2 = hp.render_chain(chain, leaf, name, bare_return=True)
       if _native_ok(src2):
@@ -337,7 +343,7 @@ def run(tier, seed):
       "the pre-order split is the list handed to cfg_utils.order_nodes by blocks.compute_order",
       "instructions the 3.12 async-for/SEND surgery deliberately leaves outside every block are not counted "
       "as partition violations (classes listed in evidence)"]
-  for inv in ("I1", "I2", "I3", "I4", "I5", "I6", "I7", "J"):
+  for inv in ("I1", "I2", "I3", "I4", "I5", "I6", "I7", "I8", "J"):
     if not evals.get(inv):
       ck.inconclusive(f"invariant {inv} was never evaluated")
   return ck.finish()
